@@ -224,6 +224,123 @@ def _is_substitution(v, line_var: str) -> bool:
     return takes_line and (name in ("sub", "subn") or "regex" in name or "replace" in name.lower() and isinstance(v.func, ast.Attribute) and unparse(v.func.value) == "self")
 
 
+def _sub_of(v, param: str) -> bool:
+    """re.sub(p, r, <param>[, ...]) / <compiled>.sub(r, <param>) with the bare parameter as the subject string"""
+    if not (isinstance(v, ast.Call) and last_attr(v.func) == "sub"):
+        return False
+    kw = next((k.value for k in v.keywords if k.arg == "string"), None)
+    if kw is not None:
+        subj = kw
+    else:
+        is_module_fn = isinstance(v.func, ast.Attribute) and isinstance(v.func.value, ast.Name) and v.func.value.id == "re"
+        idx = 2 if is_module_fn else 1
+        subj = v.args[idx] if len(v.args) > idx else None
+    return isinstance(subj, ast.Name) and subj.id == param
+
+
+def rule_no_match_identity(ctx, rep):
+    rep.rule(
+        "R-NO-MATCH-IDENTITY",
+        "the per-line substitution helpers of the regex pipelines return either their argument itself or the result of one regex `sub` whose "
+        "subject is that very argument: any other string operation on the line (strip and re-append of the terminator, case folding, "
+        "normalisation) alters lines the pattern does not match -- they are then written and reported as changes",
+        min_instances=1,
+    )
+    m = ctx.prog.module(REGEX_MOD)
+    n = 0
+    for fn in [f for f in ctx.prog.live_functions() if f.module is m and f.cls is not None]:
+        # a helper is a method that one of the `_apply` loops calls with the current line
+        if fn.name in ("_apply", "apply", "__init__"):
+            continue
+        pp = fn.positional_params()
+        if len(pp) != 2:
+            continue
+        called_with_line = False
+        for ap in [f for f in ctx.prog.live_functions() if f.module is m and f.name == "_apply"]:
+            for c in walk_no_nested(ap.node):
+                if isinstance(c, ast.Call) and isinstance(c.func, ast.Attribute) and c.func.attr == fn.name and len(c.args) == 1:
+                    called_with_line = True
+        if not called_with_line:
+            continue
+        r = ctx.resolver(fn)
+        rets = [x for x in walk_no_nested(fn.node) if isinstance(x, ast.Return)]
+        bad = None
+        for x in rets:
+            v = x.value
+            if isinstance(v, ast.Name) and v.id != pp[1]:
+                v = r.expand(v)
+            if v is None or not ((isinstance(v, ast.Name) and v.id == pp[1]) or _sub_of(v, pp[1])):
+                bad = x
+        # the parameter itself must not be rebound before the substitution
+        rebinds = [a for a in walk_no_nested(fn.node) if isinstance(a, (ast.Assign, ast.AugAssign)) and any(isinstance(t, ast.Name) and t.id == pp[1] for t in (a.targets if isinstance(a, ast.Assign) else [a.target]))]
+        n += 1
+        rep.check("R-NO-MATCH-IDENTITY", fn.qname, fn.loc(bad or (rebinds[0] if rebinds else None)), bool(rets) and bad is None and not rebinds, "returns-line-or-sub-of-line",
+                  f"`{unparse(bad or rebinds[0])[:70]}`: the helper does not return the line or one substitution over the unmodified line" if (bad or rebinds) else "no return")
+    if n == 0:
+        # the substitution is written inline in the loops: R-ONE-APPEND-PER-LINE judges the appended value itself
+        rep.instance("R-NO-MATCH-IDENTITY", REGEX_MOD, "src/codemodder/codemods/regex_transformer.py:1", True, detail="no per-line helper: substitution is inline")
+
+
+SAX_LEXICAL = {"comment", "startDTD", "endDTD", "processingInstruction", "startCDATA", "endCDATA", "skippedEntity", "ignorableWhitespace", "startEntity", "endEntity"}
+
+
+def rule_xml_verbatim(ctx, rep):
+    rep.rule(
+        "R-XML-VERBATIM",
+        "the SAX callbacks of XMLTransformer that re-emit constructs other than elements (comments, DOCTYPE, processing instructions, CDATA "
+        "delimiters, CDATA content) pass their string parameters into the written text verbatim: no call transforms them (escape, quoteattr, "
+        "replace, strip, ...) -- none of these constructs recognises character or entity references, so an escaped `&` or `<` is a "
+        "different document",
+        min_instances=2,
+    )
+    m = ctx.prog.module(XML_MOD)
+    n = 0
+    for fn in [f for f in ctx.prog.live_functions() if f.module is m and f.cls is not None and XMLT in ctx.prog.mro(f.cls.qname)]:
+        cdata_chars = fn.name == "characters"
+        if fn.name not in SAX_LEXICAL and not cdata_chars:
+            continue
+        params = set(fn.positional_params()[1:])
+        if not params:
+            continue
+        # names carrying (a piece of) a parameter
+        tainted = set(params)
+        changed = True
+        while changed:
+            changed = False
+            for a in walk_no_nested(fn.node):
+                if isinstance(a, ast.Assign) and names_in(a.value) & tainted:
+                    for t in a.targets:
+                        if isinstance(t, ast.Name) and t.id not in tainted:
+                            tainted.add(t.id)
+                            changed = True
+        fa = ctx.flow(fn) if cdata_chars else None
+        bad = None
+        for c in walk_no_nested(fn.node):
+            if not isinstance(c, ast.Call):
+                continue
+            la = last_attr(c.func)
+            is_write = isinstance(c.func, ast.Attribute) and unparse(c.func.value) == "self" and la in ("_write", "write")
+            is_super = isinstance(c.func, ast.Attribute) and isinstance(c.func.value, ast.Call) and call_name(c.func.value) == "super"
+            is_plain = isinstance(c.func, ast.Name) and c.func.id in ("str", "len", "isinstance", "bool")
+            is_log = isinstance(c.func, ast.Attribute) and unparse(c.func.value) in ("logger", "logging")
+            recv_tainted = isinstance(c.func, ast.Attribute) and bool(names_in(c.func.value) & tainted) and not is_super
+            args_tainted = any(names_in(a) & tainted for a in list(c.args) + [k.value for k in c.keywords])
+            if cdata_chars and is_super:
+                continue  # outside CDATA the inherited characters() escapes, rightly (judged by R-CDATA-STATE)
+            # embedding a piece verbatim into a larger text: "sep".join(pieces), "...{}".format(x), pieces.append(x)
+            is_embed = la in ("join", "format", "append", "extend") and isinstance(c.func, ast.Attribute)
+            if is_embed and la in ("join", "format") and not isinstance(c.func.value, (ast.Constant, ast.JoinedStr)):
+                is_embed = False
+            if (recv_tainted and not (is_embed and la in ("append", "extend"))) or (args_tainted and not (is_write or is_super or is_plain or is_log or is_embed)):
+                bad = c
+                break
+        n += 1
+        rep.check("R-XML-VERBATIM", fn.qname, fn.loc(bad), bad is None, "parameters-verbatim",
+                  f"`{unparse(bad)[:70]}` transforms what the parser reported before it is written back: the construct is re-emitted with other content" if bad is not None else "")
+    if n < 2:
+        raise AnalysisError("XMLTransformer no longer overrides the lexical SAX callbacks (comment / startDTD): how they are re-emitted is not understood")
+
+
 def rule_cdata_state(ctx, rep):
     rep.rule(
         "R-CDATA-STATE",
@@ -430,6 +547,8 @@ def check(ctx, rep):
     rule_line_index(ctx, rep)
     rule_one_append(ctx, rep)
     rule_cdata_state(ctx, rep)
+    rule_xml_verbatim(ctx, rep)
+    rule_no_match_identity(ctx, rep)
     rule_optional_format(ctx, rep)
     rule_raw_write_flush(ctx, rep)
     rule_result_driven(ctx, rep)
